@@ -2,7 +2,8 @@
 
    header:  Q <nodeSize> <eq>   |   S <nodeSize> <eq>   |   SQ <eq>
             <eq> is the EqualFunc given to the constructor: eq (a==b), m3 (a%3==b%3),
-            le (a<=b, deliberately asymmetric: pins the argument order equal(element, val))
+            le (a<=b, deliberately asymmetric: pins the argument order equal(element, val);
+                Contains mismatches under le are reported as kind=fidelity)
    ops (Q,S):  E v -> -     D -> v,t | 0,f     P -> v,t | 0,f     C v -> t|f     N -> size     Z -> t|f
    ops (SQ):   E v -> idx   D -> v,idx | 0,-1  P -> v,idx         C v -> idx     N -> size     Z -> t|f
                V -> v0,v1,... | -
@@ -179,8 +180,12 @@ let () =
                | Hang -> dead := true; "HANG")
           in
           if res <> "?" && res <> expect then begin
-            Printf.printf "MISMATCH line=%d op=%d kind=api what=%s: %s: implementation %s, proved model %s\n"
-              !lineno !opno head op res expect;
+            (* Contains under the asymmetric EqualFunc "le" depends on the order in which the code passes
+               (stored element, searched value) to the EqualFunc; for an equality that order is
+               immaterial, so this is a fidelity observable, not one the property constrains *)
+            let kindm = if eqk = "le" && toks.(0) = "C" then "fidelity" else "api" in
+            Printf.printf "MISMATCH line=%d op=%d kind=%s what=%s: %s: implementation %s, %s %s\n"
+              !lineno !opno kindm head op res (if kindm = "api" then "proved model" else "model (EqualFunc argument order)") expect;
             (* after a divergence the two states are unrelated: stop comparing this case *)
             dead := true
           end
